@@ -84,3 +84,109 @@ fn robustness_continuous() {
     }
     assert!(bad.is_empty(), "{}", bad.join("\n"));
 }
+
+/// Discrete laws: no NaN, range, cdf+sf = 1, monotone, quantile definition, pmf = cdf increments,
+/// `table()` agrees with single calls -- including k near u64::MAX and huge parameters.
+#[test]
+fn robustness_discrete() {
+    use vorac::{Disc, DiscTable};
+    let p62 = 1u64 << 62;
+    let laws = [
+        Disc::Binomial { n: 1, p: 0.5 },
+        Disc::Binomial { n: 20, p: 0.5 },
+        Disc::Binomial { n: 1000, p: 0.01 },
+        Disc::Binomial { n: 1_000_000, p: 0.5 },
+        Disc::Binomial { n: 1_000_000, p: 1e-5 },
+        Disc::Binomial { n: 100_000_000, p: 0.3 },
+        Disc::Binomial { n: 3_000_000_000, p: 0.5 },
+        Disc::Binomial { n: p62, p: 1e-18 },
+        Disc::Binomial { n: p62, p: 0.3 },
+        Disc::Binomial { n: p62, p: 1.0 - 1e-12 },
+        Disc::Binomial { n: 1u64 << 63, p: 0.5 },
+        Disc::Binomial { n: u64::MAX, p: 0.5 },
+        Disc::Binomial { n: u64::MAX, p: 1e-19 },
+        Disc::Binomial { n: u64::MAX, p: 0.999 },
+        Disc::Binomial { n: 10, p: 0.0 },
+        Disc::Binomial { n: 10, p: 1.0 },
+        Disc::Poisson { lambda: 1e-3 },
+        Disc::Poisson { lambda: 12.0 },
+        Disc::Poisson { lambda: 1e6 },
+        Disc::Poisson { lambda: 2.5e7 },
+        Disc::Poisson { lambda: 1e15 },
+        Disc::Poisson { lambda: 1.8e19 },
+        Disc::Geometric { p: 1.0 },
+        Disc::Geometric { p: 0.5 },
+        Disc::Geometric { p: 1e-12 },
+        Disc::Hypergeometric { total: 40, feature: 13, draws: 20 },
+        Disc::Hypergeometric { total: 10, feature: 10, draws: 3 },
+        Disc::Hypergeometric { total: 10, feature: 0, draws: 3 },
+        Disc::Hypergeometric { total: 10, feature: 4, draws: 10 },
+        Disc::Hypergeometric { total: 1_000_000, feature: 500_000, draws: 500_000 },
+        Disc::Hypergeometric { total: 1 << 40, feature: 1 << 39, draws: 1 << 30 },
+        Disc::Hypergeometric { total: 1 << 40, feature: 1 << 39, draws: 1 << 39 },
+        Disc::Hypergeometric { total: 1 << 40, feature: (1 << 40) - 5, draws: (1 << 40) - 7 },
+        Disc::Hypergeometric { total: 1 << 40, feature: 3, draws: 1 << 39 },
+        Disc::Zipf { n: 1, s: 0.0 },
+        Disc::Zipf { n: 10, s: 1.0 },
+        Disc::Zipf { n: 1_000_000, s: 0.5 },
+        Disc::Zipf { n: 1_000_000_000_000_000, s: 0.0 },
+        Disc::Zipf { n: 1_000_000_000_000_000, s: 1.0 },
+        Disc::Zipf { n: 1_000_000_000_000_000, s: 20.0 },
+        Disc::Zeta { s: 1.02 },
+        Disc::Zeta { s: 2.0 },
+        Disc::Zeta { s: 100.0 },
+    ];
+    let mut bad: Vec<String> = Vec::new();
+    for law in laws {
+        let (lo, hi) = law.support();
+        let (mean, sd) = (law.mean(), law.sd());
+        assert!(!mean.is_nan() && !sd.is_nan(), "{law:?} mean/sd NaN");
+        let mut ks: Vec<u64> = vec![0, 1, 2, 3, 10, 1000, lo, hi, hi.saturating_sub(1), hi / 2, 1 << 53, 1 << 63, u64::MAX - 1, u64::MAX];
+        for q in [1e-12, 1e-9, 1e-6, 1e-3, 0.1, 0.3, 0.5, 0.7, 0.9, 0.999, 1.0 - 1e-6, 1.0 - 1e-9, 1.0 - 1e-12] {
+            let k = law.quantile(q);
+            ks.extend([k.saturating_sub(1), k, k.saturating_add(1)]);
+            // definition of the quantile: cdf(k) >= q and (k == lo or cdf(k-1) < q), up to the oracle's own accuracy
+            let eb = law.err_bound() + 1e-13 + 2e-9 * q.min(1.0 - q);
+            let ok = if q <= 0.5 { law.cdf(k) >= q - eb } else { law.sf(k) <= 1.0 - q + eb };
+            let ok2 = k == lo || if q <= 0.5 { law.cdf(k - 1) < q + eb } else { law.sf(k - 1) > 1.0 - q - eb };
+            // (an unbounded law whose quantile exceeds u64::MAX saturates there: Zeta with s close to 1)
+            let saturated = k == u64::MAX && hi == u64::MAX;
+            if !(ok && ok2) && !saturated {
+                bad.push(format!("{law:?} quantile({q}) = {k}: cdf {:e} sf {:e}", law.cdf(k), law.sf(k)));
+            }
+        }
+        ks.sort_unstable();
+        ks.dedup();
+        let eb = law.err_bound();
+        let (mut pc, mut ps) = (0.0f64, 1.0f64);
+        let table = law.table(&ks);
+        let dt = DiscTable::new(&law, &ks);
+        let teb = law.table_err_bound().max(eb);
+        for (i, &k) in ks.iter().enumerate() {
+            let (c, s) = law.cdf_sf(k);
+            let pm = law.pmf(k);
+            let ok = c >= 0.0 && c <= 1.0 && s >= 0.0 && s <= 1.0 && (c + s - 1.0).abs() < 1e-9 + 2.0 * eb && pm >= 0.0 && pm <= 1.0 + 1e-12;
+            let slack = 2.0 * eb + 1e-13;
+            let mono = c >= pc - slack - 1e-9 * pc && s <= ps + slack + 1e-9 * ps;
+            let out = (k < lo && c == 0.0 && pm == 0.0) || (k >= hi && s == 0.0) || (k >= lo && k < hi) || hi == u64::MAX;
+            // pmf consistent with the cdf increment
+            let inc = if k > 0 && k >= lo && k <= hi {
+                let (c0, s0) = if k == lo { (0.0, 1.0) } else { law.cdf_sf(k - 1) };
+                let d = if c < 0.5 { c - c0 } else { s0 - s };
+                (d - pm).abs() <= 4.0 * eb + 1e-13 + 1e-7 * pm
+            } else {
+                true
+            };
+            let (tc, ts) = table[i];
+            let tab = (tc - c).abs() <= teb + eb + 1e-9 * c && (ts - s).abs() <= teb + eb + 1e-9 * s && dt.get(k) == Some((tc, ts));
+            if !(ok && mono && out && inc && tab) && bad.len() < 40 {
+                bad.push(format!(
+                    "{law:?} k={k}: cdf={c:e} sf={s:e} pmf={pm:e} table=({tc:e},{ts:e}) prev=({pc:e},{ps:e}) [ok {ok} mono {mono} out {out} inc {inc} tab {tab}]"
+                ));
+            }
+            pc = c;
+            ps = s;
+        }
+    }
+    assert!(bad.is_empty(), "{}", bad.join("\n"));
+}
